@@ -45,8 +45,20 @@ fn gen_type(r: &mut Rng) -> String {
 }
 
 fn gen_payload(r: &mut Rng) -> Vec<u8> {
-    match r.below(5) {
+    match r.below(7) {
         0 => vec![],
+        // what envelopes are made for: JSON documents, as some producer wrote them - indented, members in
+        // any order, a member twice, escaped spellings, a line feed at the end; and the metadata this
+        // library writes
+        5 => {
+            let docs: &[&str] = &["{ }", "{}\n", "{\"b\":1,\"a\":2}", "{\"a\":1,\"a\":2}", "{\"k\":\"\\u0041\"}", "{\n  \"_type\": \"link\",\n  \"name\": \"x\"\n}",
+                "[ 1, 2 ]", "{\"a\": 1.5}", " {\"a\":[]} ", "{\"a\":{\"c\":null,\"b\":true}}", "\"text\"", "7"];
+            r.pick(docs).as_bytes().to_vec()
+        }
+        6 => {
+            let link = crate::meta::gen_link(r, None);
+            if r.chance(1, 2) { serde_json::to_vec_pretty(&link).unwrap() } else { serde_json::to_vec(&link).unwrap() }
+        }
         1 => {
             let n = r.below(40);
             r.bytes(n)
